@@ -61,3 +61,40 @@ pub fn guarded<T>(f: impl FnOnce() -> T) -> Result<T, String> {
 pub fn quiet_panics() {
     std::panic::set_hook(Box::new(|_| {}));
 }
+
+/// Deterministic byte stream (SplitMix64) usable as a `Csprng`.
+pub struct SeedRng(std::cell::Cell<u64>);
+
+impl SeedRng {
+    pub fn new(seed: &[u8]) -> Self {
+        let mut s = 0x9E37_79B9_7F4A_7C15u64;
+        for b in seed {
+            s = s.rotate_left(7) ^ (*b as u64).wrapping_mul(0x1000_0000_01B3);
+        }
+        Self(std::cell::Cell::new(s))
+    }
+    fn next(&self) -> u64 {
+        let mut s = self.0.get().wrapping_add(0x9E37_79B9_7F4A_7C15);
+        self.0.set(s);
+        s = (s ^ (s >> 30)).wrapping_mul(0xBF58_476D_1CE4_E5B9);
+        s = (s ^ (s >> 27)).wrapping_mul(0x94D0_49BB_1331_11EB);
+        s ^ (s >> 31)
+    }
+}
+
+impl aranya_crypto::Csprng for SeedRng {
+    fn fill_bytes(&self, dst: &mut [u8]) {
+        for chunk in dst.chunks_mut(8) {
+            let v = self.next().to_le_bytes();
+            chunk.copy_from_slice(&v[..chunk.len()]);
+        }
+    }
+}
+
+pub fn oids_hex<CS: aranya_crypto::CipherSuite>() -> String {
+    CS::OIDS
+        .into_iter()
+        .map(|o| hex(o.as_bytes()))
+        .collect::<Vec<_>>()
+        .join(",")
+}
